@@ -427,56 +427,71 @@ def check_can_castle(ctx, f, L):
     blockers = ("xor", ("xor", OCC, bb(K)), bb(rook))
     pinned_atom = ("isempty", setalg.canon(AND(PINNED, bb(rook))))
     empty_atom = ("isempty", setalg.canon(AND(blockers, empty_set)))
-    true_like = []
+    # After desugaring (cva/desugar.py) `S.iter().all(p)` and a hand-written loop are the same thing:
+    # the answer is true exactly when the loop over S runs out, and an iteration leaves with false exactly when
+    # its predicate fails.  S must be the safety set and the predicate king_safe_on(self, square).
+    exits = []
     false_paths = []
-    all_calls = []
+    iters = []
+    S = None
     for p in paths:
-        if p.end != "return":
+        if p.end not in ("return", "loopback"):
             ctx.fail("can_castle:path-end", "can_castle has a path ending in %s" % p.end, loc(body))
             continue
-        conds = [setalg.cond_atom((L.lift(c[0]), c[1])) for c in p.conds]
-        if p.ret == FALSE:
-            false_paths.append(conds)
-        else:
-            r = L.lift(p.ret)
-            true_like.append((conds, r, p))
-    # the only non-false result is `all squares of the safety set are safe`
-    ok = len(true_like) == 1
-    ctx.check(ok, "can_castle:shape", "can_castle does not have exactly one path on which the answer depends on king safety (%d)"
-              % len(true_like), loc(body))
+        li = None
+        for i, c in enumerate(p.conds):
+            if c[0][0] == "discr" and c[0][1][0] == "next":
+                li = i
+                break
+        if li is None:
+            conds = [setalg.cond_atom((L.lift(c[0]), c[1])) for c in p.conds]
+            if p.end == "return" and p.ret == FALSE:
+                false_paths.append(conds)
+            else:
+                ctx.fail("can_castle:shape", "can_castle answers %s without testing the king's path for attacks" % sym.show(p.ret)[:80], loc(body))
+            continue
+        pre = [setalg.cond_atom((L.lift(c[0]), c[1])) for c in p.conds[:li]]
+        s_here = L.lift(p.conds[li][0][1][1])
+        if S is None:
+            S = s_here
+        elif S != s_here:
+            ctx.fail("can_castle:shape", "can_castle loops over two different square sets", loc(body))
+        if p.conds[li][1] == 0:
+            if p.end == "return" and p.ret == TRUE and len(p.conds) == li + 1:
+                exits.append(pre)
+            else:
+                ctx.fail("can_castle:shape", "after testing every square can_castle answers %s" % sym.show(p.ret)[:80], loc(body))
+            continue
+        rest = p.conds[li + 1:]
+        okp = len(rest) == 1
+        if okp:
+            e, v = rest[0][0], rest[0][1]
+            okp = e[0] == "call" and e[1] == B + "::king_safe_on" and e[2][1] == ("elem", p.conds[li][0][1][1]) \
+                and e[2][0][0] == "ptr" and e[2][0][1] == ("P", "self")
+            if okp and v == 1:
+                okp = p.end == "loopback"
+            elif okp and v == 0:
+                okp = p.end == "return" and p.ret == FALSE
+            else:
+                okp = False
+        ctx.check(okp, "can_castle:safety-predicate",
+                  "an iteration over the safety set does not decide by king_safe_on(self, square) alone (continue when safe, answer false when attacked)", loc(body))
+        iters.append(p)
+    ok = len(exits) == 1 and len(iters) == 2
+    ctx.check(ok, "can_castle:shape", "can_castle does not have exactly one way to answer true, after a loop over the safety set (%d exits, %d iteration paths)"
+              % (len(exits), len(iters)), loc(body))
     if not ok:
         return
-    conds, r, p = true_like[0]
+    conds = exits[0]
     want = [(pinned_atom, True), (empty_atom, True)]
     okc, wit = setalg.guards_equivalent([conds], [want])
     ctx.check(okc, "can_castle:preconditions",
               "castling is not conditioned on exactly `castling rook not pinned` and `every square of (king path ∪ king destination ∪ king-to-rook ∪ rook destination) other than the king's and rook's own is empty`: %s"
               % (str(wit)[:900]), loc(body),
               sample={"function": "can_castle", "must_be_empty": sym.show(empty_set)[:200]})
-    # safety: Iterator::all over the safety set with a closure that is king_safe_on(self, square)
-    okall = r[0] == "call" and r[1].endswith("Iterator::all")
-    it = None
-    if okall:
-        a0 = r[2][0]
-        if a0[0] == "ptr":
-            it = p.store.get(a0[1])
-        clos = r[2][1]
-    okall = okall and it is not None and it[0] in ("iter", "iter*")
-    if ctx.check(okall, "can_castle:safety-shape", "can_castle's last conjunct is not `all(safety set, king_safe_on)`: %s" % sym.show(r)[:200], loc(body)):
-        sset = L.lift(it[1])
-        ctx.check(setalg.equivalent(sset, safe_set), "can_castle:safety-set",
-                  "the squares tested for attack are not exactly king path ∪ king destination: %s" % sym.show(sset)[:300], loc(body),
-                  sample={"function": "can_castle", "must_be_safe": sym.show(sset)[:200]})
-        cb = f.bodies.get(clos[1]) if clos[0] == "closure" else None
-        okc = False
-        if cb is not None:
-            cps = sym.SymExec(f, cb).run()
-            if len(cps) == 1 and cps[0].ret is not None:
-                cr = cps[0].ret
-                okc = cr[0] == "call" and cr[1] == B + "::king_safe_on" and cr[2][1] == ("param", "square")
-                # first argument: the captured board
-                okc = okc and clos[2] and clos[2][0][0] == "ptr" and clos[2][0][1] == ("P", "self")
-        ctx.check(okc, "can_castle:safety-predicate", "the per-square predicate is not king_safe_on(self, square)", loc(body))
+    ctx.check(setalg.equivalent(S, safe_set), "can_castle:safety-set",
+              "the squares tested for attack are not exactly king path ∪ king destination: %s" % sym.show(S)[:300], loc(body),
+              sample={"function": "can_castle", "must_be_safe": sym.show(S)[:200]})
     # FIDE geometry: evaluate the code's own emptiness/safety sets for every Chess960 geometry
     bad = []
     n = 0
